@@ -32,6 +32,7 @@ class RMethod:
     data_ty: Optional[Ty] = None                # inner JSON type for typed modes
     payload: List[Tuple[str, Ty]] = field(default_factory=list)
     raw: bool = False                           # #[sv::payload(raw)] on the (first) payload parameter
+    payload_flags: Optional[tuple] = None       # other arguments written in the payload marker (a rule-breaking program)
     explicit_on: bool = True
     data_index: int = 0                         # position of the data parameter among the fields (0 = right after ctx)
 
@@ -60,7 +61,9 @@ class RMethod:
         pl = []
         for i, (n, t) in enumerate(self.payload):
             a = Arg(n, t)
-            if self.raw and i == 0:
+            if self.payload_flags is not None and i == 0:
+                a.attrs.append(sv_payload(self.payload_flags))
+            elif self.raw and i == 0:
                 a.attrs.append(sv_payload(("raw",)))
             pl.append(a)
         if self.data is not None:
@@ -150,6 +153,9 @@ def reference(methods):
             if "raw" in m.data and "instantiate" in m.data:
                 valid = False
                 why.append("instantiate with raw")
+        if m.payload_flags is not None and tuple(m.payload_flags) != ("raw",):
+            valid = False
+            why.append("unknown argument of the payload marker")
         if not m.payload:
             valid = False
             why.append("no payload parameter")
@@ -251,7 +257,7 @@ def mutate_invalid(rng, methods):
     """one rule-breaking (or near-rule) edit"""
     m = rng.choice(methods)
     kind = rng.choice(["dup_outcome", "always_plus", "payload_len", "payload_ty", "data_on_error", "data_second", "no_payload",
-                       "raw_plus", "inst_raw", "same_const", "raw_mismatch"])
+                       "raw_plus", "inst_raw", "same_const", "raw_mismatch", "bad_payload_arg"])
     if kind == "dup_outcome":
         methods.append(RMethod(name=m.name + "_again", on=m.on, handlers=list(m.claims())[:1], payload=list(m.payload), raw=m.raw))
     elif kind == "always_plus":
@@ -304,6 +310,11 @@ def mutate_invalid(rng, methods):
             m2[0].data = rng.choice([(), ("raw",)])
             m2[0].data_ty = P("u32")
             m2[0].data_index = 1
+    elif kind == "bad_payload_arg":
+        # `#[sv::payload(..)]` with anything but exactly `raw` is an unknown attribute argument
+        if not m.payload:
+            m.payload = [("pl", P("Binary"))]
+        m.payload_flags = rng.choice([("rwa",), ("opt",), ("raw", "opt"), ("invalid",), ("Raw",)])
     elif kind == "no_payload":
         m.payload = []
         m.raw = False
